@@ -58,6 +58,7 @@ package main
 //@   ensures old(wantMnt[slots[i].mnt]) || old(wantDev[slots[i].mnt.DeviceID]) ==> result == false && replProt == old(replProt) && replWant == old(replWant)
 //@   ensures old(slots[i].want) ==> slots[i].want
 //@   ensures slots[i].mnt == old(slots[i].mnt) && slots[i].repl == old(slots[i].repl)
+//@   ensures forall k int :: 0 <= k && k < len(slots) && k != i ==> slots[k] == old(slots[k])
 
 // balanceBlock: the emission rules.  A trash request is generated only for a
 // replica that is not wanted and older than the signature TTL horizon
@@ -88,8 +89,10 @@ package main
 //@   loop 7: invariant 0 <= i && roWanted(slots)
 //@   loop 8: invariant roWanted(slots)
 //@   loop 9: invariant roWanted(slots)
-//@   loop 10: invariant roWanted(slots) && (forall k int :: 0 <= k && k < $i && slots[k].repl != nil && underreplicated ==> slots[k].want) && underreplicated == old(underreplicated) || true
-//@   calls ChangeSet.AddTrash#1: requires !slot.mnt.ReadOnly
+//@   loop 10: invariant roWanted(slots) && (forall k int :: 0 <= k && k < $i && slots[k].repl != nil && underreplicated ==> slots[k].want)
+//@   loop 11: invariant roWanted(slots) && (forall k int :: 0 <= k && k < len(slots) && slots[k].repl != nil && underreplicated ==> slots[k].want)
+//@   loop 12: invariant roWanted(slots) && (forall k int :: 0 <= k && k < len(slots) && slots[k].repl != nil && underreplicated ==> slots[k].want)
+//@   calls ChangeSet.AddTrash#1: requires !slot.mnt.ReadOnly && !underreplicated
 //@   ghost u0 bool = false
 //@   at assign desired#1: set u0 = underreplicated
 //@   at loop 5 back: assert u0 ==> underreplicated
